@@ -1,10 +1,12 @@
 (* Model/Packet.v — src/packet.rs, function for function.
    Panic sites 100-199. *)
-From TS Require Import Base.Res Model.Timestamp.
+From TS Require Import Base.Res Gen.Consts Model.Timestamp.
 Open Scope N_scope.
 
-Definition PKT_SIZE : nat := 188.
-Definition SYNC_BYTE : N := 71.
+(* Packet::SIZE, Packet::SYNC_BYTE, Pid::MAX_VALUE: regenerated from the source on every run (Gen/Consts.v) *)
+Definition PKT_SIZE : nat := Eval compute in N.to_nat PACKET_SIZE.
+Definition SYNC_BYTE : N := Eval compute in SYNC_BYTE_SRC.
+Definition PID_MAX : N := Eval compute in PID_MAX_VALUE.
 Definition FIXED_HEADER_SIZE : nat := 4.
 Definition ADAPTATION_FIELD_OFFSET : nat := 5.
 
@@ -39,8 +41,8 @@ Definition cc_new (count : N) : res N := do _ <- assert (count <? 16) 109; Ok co
 Definition cc_follows (self other : N) : bool := N.land (other + 1) 15 =? self.
 
 (* ---- Pid ---- *)
-Definition pid_new (pid : N) : res N := do _ <- assert (pid <=? 8191) 110; Ok pid.
-Definition pid_try_from (v : N) : option N := if v <=? 8191 then Some v else None.
+Definition pid_new (pid : N) : res N := do _ <- assert (pid <=? 8191) 110; Ok pid.   (* literal 0x1fff in Pid::new *)
+Definition pid_try_from (v : N) : option N := if v <=? PID_MAX then Some v else None.
 
 (* ---- AdaptationField ---- *)
 Inductive af_err := AfFieldNotPresent | AfNotEnoughData | AfSpliceTimestampError (e : ts_err).
